@@ -477,7 +477,7 @@ def r85(e: Engine, rep: Report):
 def r86(e: Engine, rep: Report):
     # SmtpSession.AUTH: self.auth only under 235
     ctx = e.method_ctx(SESSION, 'AUTH')
-    g = e.build(ctx)
+    g = e.build(ctx, inline=c07.SESSION_INLINE(e), max_depth=3)
     fx = e.facts(g)
     rp = '%s#%d' % (ctx.func.params[1], g.entry.frame.id)
     found = 0
@@ -561,10 +561,15 @@ def r86(e: Engine, rep: Report):
                     if isinstance(s.ast, ast.Assign) and any(
                         isinstance(t, ast.Name) and t.id == a.id
                         for t in s.ast.targets) and s.frame is afr]
-            ok = len(srcs) >= 1 and all(
-                isinstance(s.ast.value, ast.Call) and
-                isinstance(s.ast.value.func, ast.Attribute) and
-                s.ast.value.func.attr == 'server_attempt' for s in srcs)
+            def attempt(s):
+                v = s.ast.value
+                if not isinstance(v, ast.Call):
+                    return False
+                ap = common.applied_call(e, s.ctx, v)
+                fnx = ap[0] if ap else v.func
+                return isinstance(fnx, ast.Attribute) and \
+                    fnx.attr == 'server_attempt'
+            ok = len(srcs) >= 1 and all(attempt(s) for s in srcs)
         rep.evaluations += 1
         rep.check(ok, 'R8.6', SERVER + '.' + name,
                   'credentials passed to the AUTH callback are the result '
